@@ -175,6 +175,11 @@ def h_special(sx):
         cfg.config_tags = dtext
         cfg.default_tags = ""
         cfg.tags = outer if not sx.params.get("as_list") else [outer]
+        if sx.params.get("as_list") and outer == "{config.tags} and x":
+            # several --tags options, the placeholder in only one of them
+            cfg.tags = ["{config.tags}", "x"]
+        if sx.params.get("as_list") and outer == "zzz or {config.tags}":
+            cfg.tags = ["a or not a", "zzz or {config.tags}", "ax or not ax"]
         try:
             cfg.setup_tag_expression()
             r = bool(cfg.tag_expression.check(tags))
